@@ -22,8 +22,10 @@ static cholmod_sparse* to_sparse(const std::vector<double>& A, int n) {
 	cholmod_sparse* s = cholmod_l_dense_to_sparse(d, 1, &cc); cholmod_l_free_dense(&d, &cc); s->stype = 0; return s;
 }
 static cholmod_dense* to_vec(const std::vector<double>& v) { cholmod_dense* d = cholmod_l_allocate_dense(v.size(), 1, v.size(), CHOLMOD_REAL, &cc); for (size_t i = 0; i < v.size(); i++) ((double*)d->x)[i] = v[i]; return d; }
-static const char* SOLVER[] = {"block3", "block", "block_updown", "lawson_hanson_normal", "lawson_hanson_lsq"};
-static const double TOL[] = {1e-9, 1e-5, 1e-5, 1e-8, 1e-8};   // accuracy each solver states / is run with
+static const char* SOLVER[] = {"block3", "block", "block_updown", "lawson_hanson_normal", "lawson_hanson_lsq", "lawson_hanson_lsq_rect"};
+static const double TOL[] = {1e-9, 1e-5, 1e-5, 1e-8, 1e-8, 1e-8};   // accuracy each solver states / is run with
+// solver 5: Lawson-Hanson in least-squares form on an over-determined m x n system (set before the call)
+static std::vector<double> g_rectM, g_recty; static int g_rectm = 0;
 static bool cholesky(const std::vector<double>& A, int n, std::vector<double>& L) {
 	L.assign(n * n, 0);
 	for (int j = 0; j < n; j++) { double s = A[j * n + j]; for (int k = 0; k < j; k++) s -= L[j * n + k] * L[j * n + k]; if (!(s > 0)) return false; L[j * n + j] = std::sqrt(s);
@@ -38,6 +40,13 @@ static bool solve(int which, const std::vector<double>& A, const std::vector<dou
 	else if (which == 1) r = nnls_normal_block(As, bd, 0, &cc);
 	else if (which == 2) r = nnls_normal_block_updown(As, bd, 0, &cc);
 	else if (which == 3) r = nnls_lawson_hanson(As, bd, 1e-10, 0, 0, 0, 1, 0, &cc);
+	else if (which == 5) {
+		cholmod_dense* Md = cholmod_l_allocate_dense(g_rectm, n, g_rectm, CHOLMOD_REAL, &cc);
+		for (int i = 0; i < g_rectm; i++) for (int j = 0; j < n; j++) ((double*)Md->x)[j * g_rectm + i] = g_rectM[i * n + j];
+		cholmod_sparse* Ms = cholmod_l_dense_to_sparse(Md, 1, &cc); cholmod_l_free_dense(&Md, &cc); Ms->stype = 0;
+		cholmod_dense* yd = to_vec(g_recty);
+		r = nnls_lawson_hanson(Ms, yd, 1e-10, 0, 0, 0, 0, 0, &cc); cholmod_l_free_sparse(&Ms, &cc); cholmod_l_free_dense(&yd, &cc);
+	}
 	else {   // least-squares form: A = R'R, b = R'y  ->  minimise |Rx - y|^2
 		std::vector<double> L; if (!cholesky(A, n, L)) { cholmod_l_free_sparse(&As, &cc); cholmod_l_free_dense(&bd, &cc); alarm(0); return false; }
 		std::vector<double> R(n * n), y(n); for (int i = 0; i < n; i++) for (int j = 0; j < n; j++) R[i * n + j] = L[j * n + i];
@@ -157,6 +166,23 @@ int main(int argc, char** argv) {
 			if (style == 2) for (int i = 0; i < n; i++) { int e = (int)(i % 5) * 2 - 4; b[i] = std::ldexp(b[i], e); for (int k = 0; k < n; k++) { A[i * n + k] = std::ldexp(A[i * n + k], e); A[k * n + i] = std::ldexp(A[k * n + i], e); } }
 			std::vector<LD> xr; bool hasref = n <= 12 && reference(A, b, n, xr);
 			for (int s = 0; s < 5; s++) emit(out, "random", s, n, A, b, hasref ? &xr : nullptr, "random it=" + std::to_string(it) + " style=" + std::to_string(style), 0);
+		}
+	}
+	if (mode == "random") {
+		// over-determined least-squares systems for the least-squares form of Lawson-Hanson (m = n .. 2n + 10 rows)
+		long count = atol(argv[2]);
+		for (long it = 0; it < count / 2 + 10; it++) {
+			int n = 1 + (int)rng.below(9); int extra = it % 4 == 0 ? 0 : (it % 4 == 1 ? 1 + (int)rng.below(2) : (it % 4 == 2 ? n : 3 + (int)rng.below(8))); int m = n + extra;
+			std::vector<double> M(m * n), y(m);
+			for (auto& v : M) v = it % 5 == 3 ? (double)((int)rng.below(5) - 2) : rng.unit() * 2 - 1;
+			if (it % 5 == 1) for (auto& v : M) if (rng.below(3) == 0) v = 0;
+			for (int j = 0; j < n; j++) M[j * n + j] += it % 5 == 3 ? 6 : (M[j * n + j] >= 0 ? 1.5 : -1.5);
+			for (auto& v : y) v = it % 5 == 3 ? (double)((int)rng.below(5) - 2) : rng.unit() * 2 - 1;
+			std::vector<double> A(n * n), b(n);
+			for (int i = 0; i < n; i++) { for (int j = 0; j < n; j++) { LD sm = 0; for (int k = 0; k < m; k++) sm += (LD)M[k * n + i] * M[k * n + j]; A[i * n + j] = (double)sm; } LD sm = 0; for (int k = 0; k < m; k++) sm += (LD)M[k * n + i] * y[k]; b[i] = (double)sm; }
+			std::vector<LD> xr; if (!reference(A, b, n, xr)) continue;
+			g_rectM = M; g_recty = y; g_rectm = m;
+			emit(out, "random", 5, n, A, b, &xr, "rect it=" + std::to_string(it) + " m=" + std::to_string(m), 0);
 		}
 	}
 	fclose(out); cholmod_l_finish(&cc); printf("{\"done\":true}\n"); return 0;
